@@ -402,6 +402,7 @@ PROPS["C17"] = {
     "units": [
         {"name": "regress", "mode": "plain", "run": "TestC17Regress"},
         {"name": "rapid", "mode": "rapid", "run": "TestC17Rapid", "checks": {"quick": 24000, "thorough": 480000}},
+        {"name": "large", "mode": "plain", "run": "TestC17Large", "shards": 12},
         {"name": "model-crosscheck", "mode": "rapid", "run": "TestC17ModelCrossCheck", "shards": {"quick": 2, "thorough": 8}, "checks": {"quick": 4000, "thorough": 100000}},
     ],
 }
@@ -485,6 +486,8 @@ PROPS["C11"] = {
                          "op:renameInside": 500, "op:renameAway": 500, "last:moveIn": 20, "last:linkIn": 20, "last:remove": 20}},
     "units": [
         {"name": "regress", "mode": "plain", "run": "TestC11Regress", "race": True},
+        {"name": "configure-race", "mode": "plain", "run": "TestC11ConfigureRace", "race": True, "shards": {"quick": 2, "thorough": 8},
+         "env": {"VERIF_C11_RACE_ITERS": {"quick": 16, "thorough": 64}}},
         {"name": "rapid", "mode": "rapid", "run": "TestC11Rapid", "race": True, "checks": {"quick": 2400, "thorough": 48000}, "timeout": {"quick": 400, "thorough": 3600}},
     ],
 }
